@@ -19,7 +19,7 @@ ASSUMPTIONS = ["find_neighbor_pairs_index is given lists of unique sequences (it
 EXHAUSTIVE = {"quick": ["levenshtein_neighbors: all x len<=5 over alphabets A, AC, ACD and len<=4 over ACDW", "hamming_neighbors: all x len<=4 over AC, ACD"],
               "thorough": ["levenshtein_neighbors: all x len<=6 over A, AC, ACD, ACDW", "hamming_neighbors: all x len<=5 over A..ACDW",
                            "next_nearest_neighbors: all x len<=3 over AC for maxdistance 1..3"]}
-REQUIRE = {"lev1_strings": 400, "ham1_strings": 100, "strings_with_repeated_letters": 100, "empty_string_cases": 1, "brute_force_crosschecks": 50,
+REQUIRE = {"variable_positions_one_shot_iterables": 15, "lev1_strings": 400, "ham1_strings": 100, "strings_with_repeated_letters": 100, "empty_string_cases": 1, "brute_force_crosschecks": 50,
            "variable_positions_cases": 20, "nnn_cases": 20, "pairs_cases": 16, "pairs_index_cases": 16, "neighbor_numbers_cases": 16,
            "isdist1_cases": 40, "nndist_cases": 30, "nndist_value_0": 2, "nndist_value_1": 5, "nndist_value_2": 5, "nndist_value_3": 3, "nndist_value_4": 2,
            "default_alphabet_cases": 10, "empty_reference_cases": 2}
